@@ -301,6 +301,7 @@ func main() {
 		clause, sig string
 		count       int
 		best        *runResult
+		cands       []*runResult // race groups: further runs to try when the first does not reproduce
 		msg         string
 	}
 	groups := map[string]*vgroup{}
@@ -356,6 +357,9 @@ func main() {
 				groups[key] = g
 			}
 			g.count++
+			if r.ViolFile != "" && g.clause == "race" && len(g.cands) < 6 {
+				g.cands = append(g.cands, r)
+			}
 			if r.ViolFile != "" && (g.best == nil || r.Ops < g.best.Ops) {
 				g.best = r
 			}
@@ -419,6 +423,32 @@ func main() {
 			os.WriteFile(dst, b, 0o644)
 		}
 		rc := replay(minFile, false)
+		if rc == 0 && g.clause == "race" {
+			// a race report can involve an access left over from an earlier run of the same worker process;
+			// such a report is not a property of this run. Try the other runs of the group.
+			for _, c := range g.cands {
+				if c == g.best {
+					continue
+				}
+				b, err := os.ReadFile(c.ViolFile)
+				if err != nil {
+					continue
+				}
+				alt := filepath.Join(root, "replays", fmt.Sprintf("%s-%s-%s-seed%d-run%d.json", prop, safe(g.clause), safe(g.sig), seed, c.Idx))
+				os.WriteFile(alt, b, 0o644)
+				if replay(alt, false) == 1 {
+					os.Remove(minFile)
+					minFile, rc = alt, 1
+					break
+				}
+				os.Remove(alt)
+			}
+			if rc == 0 {
+				os.Remove(minFile)
+				fmt.Printf("WARNING: race report [%s] seen in %d run(s) did not reproduce from any of their replay files in a fresh process; not a verdict\n", g.sig, g.count)
+				continue
+			}
+		}
 		if rc == 2 {
 			die(2, "replay of %s failed to run", minFile)
 		}
